@@ -2,6 +2,8 @@
 From Coq Require Import String.
 From Cvg Require Import Base GoTypes Re Unicode Matcher Dump Options Front Builder.
 From Cvg.proofs Require Import BuilderProofs MatchProofs TypeLaws.
+From Cvg Require Import GoLib GoFuns.
+From Cvg.proofs Require Import UtilTieProofs.
 Open Scope N_scope.
 
 (** Where a default-matched entry can come from. For every destination node and
@@ -99,3 +101,16 @@ Theorem C04_relation_laws :
   (forall E V T, assignable E V T = true -> convertible E V T = true).
 Proof. exact (conj identical_refl (conj assignable_of_identical convertible_of_assignable)). Qed.
 Print Assumptions C04_relation_laws.
+
+(** Tie to the source: the type classes the matching ladder asks about. [GoUtil.IsSliceType] etc. are /repo's pkg/util/types.go
+    translated on every run (a type assertion to a class of go/types is the recogniser of the model's
+    constructor); the model's predicates are proved equal to them. *)
+Theorem C04_type_predicates_are_the_go_code :
+  forall t,
+    GoUtil.IsSliceType t = is_slice t /\ GoUtil.IsBasicType t = is_basic t /\ GoUtil.IsNamedType t = is_named t /\
+    GoUtil.IsPtr t = is_ptr t /\ GoUtil.DerefPtr t = deref_ptr t /\ GoUtil.Deref t = (deref_ptr t, is_ptr t).
+Proof.
+  intros t.
+  exact (conj (is_slice_tie t) (conj (is_basic_tie t) (conj (is_named_tie t) (conj (is_ptr_tie t) (conj (deref_ptr_tie t) (deref_tie t)))))).
+Qed.
+Print Assumptions C04_type_predicates_are_the_go_code.
